@@ -5,6 +5,8 @@
                      SInit  close guard held, awaiting initialize_service() / task_group.start()
                      SMain  `await sleep_forever()` inside the run scope (server is up)
                      SWait  leaving: run scope reset, task group cancelled its children and waits for them
+                     SQuit  children gone, server tasks cleared: the service's own exit stack (service_quit) runs;
+                            the event of the run is set only after it
      server_close  : waiting for __server_close_lock (asyncio.Lock: one holder, FIFO waiters = [cwait])
                      CTasks lock + guard held, server tasks cancelled, waiting for them
                      CListeners  closing the listeners (each aclose() yields)
@@ -18,8 +20,9 @@ From EN Require Import Gen.ParamsC18.
 Import ListNotations.
 
 Inductive outcome := OOk | OAlreadyRunning | OClosed | OBusy
+  | OFail     (* serve_forever ends with the error of the listeners factory (e.g. OSError: address in use) *)
   | OCrash.   (* serve_forever ends with ExceptionGroup[RuntimeError('TaskGroup ... is shutting down')]: defect, see notes *)
-Inductive spc := SAct | SInit | SMain | SWait.
+Inductive spc := SAct | SInit | SMain | SWait | SQuit.
 Inductive cpc := CTasks | CListeners.
 Inductive lstate := LEmpty | LOpen | LClosing.          (* self.__servers: [] / listening / aclose() started *)
 Inductive tstate := TNone | TRun | TCancelling | TDone.  (* self.__server_tasks: [] / running / cancel requested / done *)
@@ -56,7 +59,8 @@ Inductive label :=
 | LCallServe | LCallClose | LCallShutdown
 | LConnect | LDisconnect | LQuery
 | LUdpQueue            (* UDP: a datagram arrives for an address whose handler is suspended on an earlier one *)
-| LFactoryDone (id : nat) | LInitDone (id : nat) | LWake (id : nat) | LServeExit (id : nat)
+| LFactoryDone (id : nat) | LFactoryFail (id : nat) | LInitDone (id : nat) | LWake (id : nat)
+| LChildrenDone (id : nat) | LServeExit (id : nat)
 | LTaskDone | LClientGone
 | LCloseLock | LCloseTasks | LCloseFinish
 | LShutdownWake (id : nat).
@@ -170,15 +174,28 @@ Definition step (s : st) (l : label) : option (st * list obs) :=
           Some (set_clients s 0 (dying s + clients s), [])
       | _, _ => None
       end
-  | LServeExit id =>
+  | LFactoryFail id =>
+      (* the listeners factory raises (bind error): server_activate's finally resets the factory scope, the error leaves
+         serve_forever through its exit stack (event set) *)
+      match take id (serves s) with
+      | Some (SAct, rest) => Some (end_run (set_fscope (set_serves s rest) None), [Ret id OFail])
+      | _ => None
+      end
+  | LChildrenDone id =>
       match take id (serves s), stask s, dying s with
       | Some (SWait, rest), (TNone | TDone), 0 =>
+          Some (set_stask (set_serves s (rest ++ [(id, SQuit)])) TNone, [])
+      | _, _, _ => None
+      end
+  | LServeExit id =>
+      match take id (serves s) with
+      | Some (SQuit, rest) =>
           (* datagram.py __on_client_coroutine_task_done runs in the finally of the cancelled client task, finds the
              queue non-empty and calls start_soon on the task group that is shutting down -> RuntimeError -> the
              group re-raises it out of serve_forever.  [udp_restart_guarded] (Gen/ParamsC18.v, regenerated from the
              source) says whether that restart is skipped for a cancelled client task. *)
-          Some (end_run (set_udpq (set_stask (set_serves s rest) TNone) false), [Ret id (if udpq s && negb udp_restart_guarded then OCrash else OOk)])
-      | _, _, _ => None
+          Some (end_run (set_udpq (set_serves s rest) false), [Ret id (if udpq s && negb udp_restart_guarded then OCrash else OOk)])
+      | _ => None
       end
   | LTaskDone =>
       match stask s with
@@ -251,7 +268,7 @@ Inductive reachable : st -> Prop :=
 (* ---- deterministic big step used by the correspondence: after every external label, run the internal
    transitions to quiescence.  Completions of awaited things that the driver gates (factory, service_init, client
    teardown) only fire when [gates] lets them. ---- *)
-Record gates := { g_factory : bool; g_init : bool; g_client : bool }.   (* true = held back *)
+Record gates := { g_factory : bool; g_init : bool; g_client : bool; g_quit : bool }.   (* true = held back *)
 
 Definition cancel_pending (o : option bool) : bool := match o with Some true => true | _ => false end.
 
@@ -263,7 +280,8 @@ Definition internal_candidates (s : st) (g : gates) : list label :=
                                then [] else [LFactoryDone (fst e)]
                      | SInit => if g_init g && negb (cancel_pending (scope s)) then [] else [LInitDone (fst e)]
                      | SMain => [LWake (fst e)]
-                     | SWait => [LServeExit (fst e)]
+                     | SWait => [LChildrenDone (fst e)]
+                     | SQuit => if g_quit g then [] else [LServeExit (fst e)]
                      end) (serves s) ++
   [LTaskDone] ++ (if g_client g then [] else [LClientGone]) ++
   [LCloseLock; LCloseTasks; LCloseFinish].
